@@ -163,10 +163,27 @@ type World struct {
 	Setup   *Setup
 }
 
+// Close releases the in-memory leveldb instance behind the world (its goroutines keep it alive otherwise).
+func (w *World) Close() { w.DB.Close() }
+
 func (w *World) Know(a thor.Address) { w.Known[thor.Blake2b(a[:])] = a }
 
 func DevKey(i int) *ecdsa.PrivateKey { return genesis.DevAccounts()[i%len(genesis.DevAccounts())].PrivateKey }
 func DevAddr(i int) thor.Address      { return genesis.DevAccounts()[i%len(genesis.DevAccounts())].Address }
+
+// genesis.NewDevnetWithConfig computes the genesis id on a throw-away in-memory database that is never closed: build the
+// genesis object once per fork height and reuse it (Build can be applied to any number of databases).
+var genesisCache = map[uint32]*genesis.Genesis{}
+
+func genesisFor(fc thor.ForkConfig) *genesis.Genesis {
+	if g, ok := genesisCache[fc.GALACTICA]; ok {
+		return g
+	}
+	cfg := fc
+	g := genesis.NewDevnetWithConfig(genesis.DevConfig{ForkConfig: &cfg})
+	genesisCache[fc.GALACTICA] = g
+	return g
+}
 
 func NewWorld(s *Setup) *World {
 	hayabusaTP := uint32(math.MaxUint32)
@@ -175,7 +192,7 @@ func NewWorld(s *Setup) *World {
 	fc.HAYABUSA = math.MaxUint32
 	fc.GALACTICA = s.Galactica
 	db := muxdb.NewMem()
-	g := genesis.NewDevnetWithConfig(genesis.DevConfig{ForkConfig: &fc})
+	g := genesisFor(fc)
 	b0, _, _, err := g.Build(state.NewStater(db))
 	if err != nil {
 		hx.Fatal("genesis: %v", err)
@@ -1120,6 +1137,7 @@ func GenTx(r *hx.Rand, s *Setup, w *World) TxSpec {
 func GenCase(r *hx.Rand) *Case {
 	c := &Case{Setup: GenSetup(r)}
 	w := NewWorld(&c.Setup)
+	defer w.Close()
 	n := 1 + r.Intn(4)
 	for i := 0; i < n; i++ {
 		c.Txs = append(c.Txs, GenTx(r, &c.Setup, w))
